@@ -1,0 +1,76 @@
+// Copyright 2026 Dolthub, Inc.
+//
+// Licensed under the Apache License, Version 2.0 (the "License");
+// you may not use this file except in compliance with the License.
+// You may obtain a copy of the License at
+//
+//     http://www.apache.org/licenses/LICENSE-2.0
+//
+// Unless required by applicable law or agreed to in writing, software
+// distributed under the License is distributed on an "AS IS" BASIS,
+// WITHOUT WARRANTIES OR CONDITIONS OF ANY KIND, either express or implied.
+// See the License for the specific language governing permissions and
+// limitations under the License.
+
+//go:build verif
+
+package nbs
+
+// Machine-checked contracts for /verif (comment-only; see /verif/DESIGN.md §2.2).
+
+//@ func (onHeapTableIndex).findPrefix
+//@   property C01
+//@   nopanic
+//@   requires verif_wf_index(ti) && verif_sorted(ti)
+//@   ensures  idx <= ti.count
+//@   ensures  forall k in 0..int(idx): verif_pfx(ti, uint32(k)) < prefix
+//@   ensures  forall k in int(idx)..int(ti.count): verif_pfx(ti, uint32(k)) >= prefix
+//@   modifies nothing
+//@   loop 1
+//@     invariant idx <= j && j <= ti.count
+//@     invariant forall k in 0..int(idx): verif_pfx(ti, uint32(k)) < prefix
+//@     invariant forall k in int(j)..int(ti.count): verif_pfx(ti, uint32(k)) >= prefix
+//@     decreases j - idx
+
+//@ func (onHeapTableIndex).prefixAt
+//@   property C01
+//@   nopanic
+//@   requires verif_wf_index(ti) && idx < ti.count
+//@   ensures  result == verif_pfx(ti, idx)
+//@   modifies nothing
+
+//@ func (onHeapTableIndex).ordinalAt
+//@   property C01
+//@   nopanic
+//@   requires verif_wf_index(ti) && idx < ti.count
+//@   ensures  result == verif_ord(ti, idx)
+//@   modifies nothing
+
+//@ func (onHeapTableIndex).tupleAt
+//@   property C01
+//@   nopanic
+//@   requires verif_wf_index(ti) && idx < ti.count
+//@   ensures  prefix == verif_pfx(ti, idx) && ord == verif_ord(ti, idx)
+//@   modifies nothing
+
+//@ func (onHeapTableIndex).entrySuffixMatches
+//@   property C01
+//@   nopanic
+//@   requires verif_wf_index(ti) && idx < ti.count && verif_ord(ti, idx) < ti.count
+//@   ensures  result0 == verif_sfxmatch(ti, verif_ord(ti, idx), h) && result1 == nil
+//@   modifies nothing
+
+//@ func (onHeapTableIndex).lookupOrdinal
+//@   property C01
+//@   nopanic
+//@   requires verif_wf_index(ti) && verif_sorted(ti) && verif_ords_ok(ti)
+//@   ensures  result1 == nil
+//@   ensures  result0 != ti.count ==> exists k in 0..int(ti.count): verif_present(ti, h, uint32(k)) && result0 == verif_ord(ti, uint32(k))
+//@   ensures  result0 == ti.count ==> forall k in 0..int(ti.count): !verif_present(ti, h, uint32(k))
+//@   modifies nothing
+//@   loop 1
+//@     invariant idx <= ti.count
+//@     invariant prefix == h.Prefix()
+//@     invariant forall k in 0..int(idx): !verif_present(ti, h, uint32(k))
+//@     invariant forall k in int(idx)..int(ti.count): verif_pfx(ti, uint32(k)) >= prefix
+//@     decreases ti.count - idx
